@@ -56,6 +56,18 @@ def missing_origin_variants(ctx, f):
             if s[0] == "assign" and s[2][0] == "aggregate" and s[2][1].get("adt") == ERR:
                 out.add(s[2][1]["variant"])
                 sites.append("xref::XRefTable::get: out of table -> %s" % s[2][1]["variant"])
+    # an error the lookup produces before it has consulted the table at all (a range test on the object number, say) is an origin too
+    for b in f.bodies.values():
+        gets = call_sites(b, lambda n, t: n == "xref::XRefTable::get")
+        if gets and call_sites(b, lambda n, t: last_seg(n) == "parse_indirect_object"):
+            cfg = CFG(b)
+            for i, j, s in F.stmts(b):
+                if s[0] == "assign" and s[2][0] == "aggregate" and s[2][1].get("adt") == ERR and s[2][1]["variant"] != "Try":
+                    if not any(cfg.dominates(gb, i) for gb, gt in gets) and any(cfg.can_reach(i, gb) or True for gb, gt in gets):
+                        # not behind the table look-up: produced on the way to it
+                        if not any(cfg.dominates(gb, i) for gb, gt in gets) and all(not cfg.can_reach(gb, i) for gb, gt in gets):
+                            out.add(s[2][1]["variant"])
+                            sites.append("%s: before the table is consulted -> %s" % (b["id"], s[2][1]["variant"]))
     return out, sites
 
 
@@ -450,6 +462,23 @@ def rule_required(ctx, f):
                 cnt += 1
                 if not v:
                     fields_ok = False
+        # the error of a field's reader is wrapped (FromPrimitive names the entry): never handed on with `?`
+        fl0 = Flow(b)
+        for bi, t in F.calls(b):
+            if last_seg(F.callee_name(t)) == "branch" and t["args"]:
+                l0 = F.op_local(t["args"][0])
+                if l0 is not None and any(a[0] == "call" and a[3].get("callee") == "object::Object::from_primitive" for a in fl0.origins(l0, passthrough=())):
+                    bad.append("`?` on a field reader at %s (the error no longer names the entry)" % t["span"])
+        # optional entries go through the Option reader (the one place where a missing object becomes None)
+        adt0 = f.adts.get(b["impl"].get("self_adt") or "")
+        if adt0 and len(adt0["variants"]) == 1:
+            from collections import Counter
+            want0 = Counter(x["s"] for x in adt0["variants"][0]["fields"] if x["s"].startswith("std::option::Option<"))
+            got0 = Counter((t.get("self_ty") or {}).get("s", "") for bi, t in F.calls(b) if t.get("callee") == "object::Object::from_primitive")
+            for ty0, k0 in want0.items():
+                if got0.get(ty0, 0) < k0:
+                    bad.append("%d field(s) of type %s but %d reads through <Option<..> as Object>::from_primitive: an optional entry pointing at a missing object fails the whole object"
+                               % (k0, ty0[:70], got0.get(ty0, 0)))
         n += 1
         ctx.check(not bad and fields_ok, "C18-G1", b["impl"]["self"],
                   "derived reader can panic or loses the field name: %s" % (bad or "FromPrimitive without constant field"), b["span"],
